@@ -6,6 +6,7 @@
 #include <future>
 #include <mutex>
 #include <nano/arch.h>
+#include <nano/core/verif.h>
 #include <thread>
 #include <vector>
 
@@ -36,8 +37,11 @@ public:
         {
             const std::scoped_lock lock(m_mutex);
             m_tasks.emplace_back(std::move(task));
+            NANO_VERIF_EMIT("EnqOne", 1);
         }
+        NANO_VERIF_YIELD(1);
         m_condition.notify_one();
+        NANO_VERIF_EMIT("NotifyOne");
         return future;
     }
 
@@ -196,8 +200,12 @@ public:
                 {
                     section.emplace_back(m_queue.enqueue_no_lock([op, index](const size_t tnum) { op(index, tnum); }));
                 }
+                NANO_VERIF_EMIT("Enq", static_cast<int64_t>(elements), 1);
             }
+            NANO_VERIF_YIELD(2);
             m_queue.m_condition.notify_all();
+            NANO_VERIF_EMIT("NotifyAll");
+            NANO_VERIF_YIELD(3);
 
             section.block(raise);
         }
@@ -234,8 +242,12 @@ public:
                     section.emplace_back(
                         m_queue.enqueue_no_lock([op, begin, end](const size_t tnum) { op(begin, end, tnum); }));
                 }
+                NANO_VERIF_EMIT("Enq", static_cast<int64_t>(elements), static_cast<int64_t>(chunksize));
             }
+            NANO_VERIF_YIELD(2);
             m_queue.m_condition.notify_all();
+            NANO_VERIF_EMIT("NotifyAll");
+            NANO_VERIF_YIELD(3);
 
             section.block(raise);
         }
